@@ -77,3 +77,21 @@ Proof.
   cbv zeta. split; [vm_compute; reflexivity|]. split; [reflexivity|]. split; [reflexivity|]. split; [|vm_compute; reflexivity].
   intros j Hj. assert (j = 0%nat) by lia. subst j. vm_compute. discriminate.
 Qed.
+
+(* a post-hook exception outside the finite regime (after_exception_surfaces_general): errors='replace', pass 1 leaves NaN, pass 2
+   is the first stopping pass (judged against the zeroed local copy, converged), the post-hook raises: SolutionError chained to
+   it, status / iterations of the period untouched; the theorem's premises hold *)
+Definition ex14_scripts : scripts :=
+  [(1%nat, mkPS [] [[ASet 0 nan]; [ASet 0 0x1.19799812dea11p-40%float]] [ARaise 13])].
+Example ex14_after_hook_exception_general :
+  let o := ex10_opts EReplace in
+  let c0 := get_check float fzero ex_desc (vals_of ex_state) 1%nat in
+  f_solve_t ex14_scripts ex_desc o 1 ex_state
+  = (mkState [[0%float; 0x1.19799812dea11p-40%float; 0%float]] [Unsolved; Unsolved; Unsolved] [-1; -1; -1]
+             [EvBefore 1; EvPass 1 1; EvPass 1 2; EvAfter 1 2], Raise (SolutionError (Some 13))) /\
+  find_first (stops float PrimFloat.sub PrimFloat.abs PrimFloat.ltb fisfin fzero (s_ev 3 ex14_scripts) ex_desc o 1 1%nat c0
+                    (vals_of ex_state) 5) 1 5 = Some 2%nat /\
+  all_finite float fisfin (chkseq float fzero (s_ev 3 ex14_scripts) ex_desc o 1 1%nat c0 (vals_of ex_state) 2) = true /\
+  snd (s_after 3 ex14_scripts 1 (errors o) (catch_first o) 2%nat
+         (st_after float (s_ev 3 ex14_scripts) o 1 (vals_of ex_state) 2)) = Some 13.
+Proof. cbv zeta. repeat split; vm_compute; reflexivity. Qed.
